@@ -566,3 +566,20 @@ def filter_count(ip, name: str, args: list, n, keep_fn):
         s.pointwise.append(pw)
     tm = lambda k: k if not isinstance(k, int) else z3.IntVal(k)
     return (lambda k: CNT(*args, tm(k))), (lambda q: SRC(*args, tm(q)))
+
+
+def minmax_hook(ip, S, ismax: bool):
+    """max(S) / min(S) of a non-empty symbolic sequence of numbers: a value attained at some position and bounding every
+    entry (the bound is instantiated at every index term in use)."""
+    n = ip.models.len_term(S.n)
+    m = sym.fresh("seqmax" if ismax else "seqmin", R)
+    sk = skolem(ip, "sk_argmax" if ismax else "sk_argmin", n)
+    index_used(ip, sk)
+    ip.path.assume(z3.Implies(n > 0, real_term(S.get(sk)) == m))
+
+    def pw(k):
+        if _once(ip, f"minmax:{m}:{k}"):
+            ek = real_term(S.get(k))
+            ip.path.assume(z3.Implies(z3.And(k >= 0, k < n), ek <= m if ismax else ek >= m))
+    seqs(ip).pointwise.append(pw)
+    return SReal(m, "float")
